@@ -533,9 +533,20 @@ class _ExtendedTypeFetcher(Thread):
 
         self.request_queue = Queue()
         self._cf.add_port_callback(CRTPPort.PARAM, self._new_packet_cb)
+        # What is outstanding when the link goes down must not be answered
+        # (and reported as done) in the next connection
+        self._cf.disconnected.add_callback(self._disconnected)
         self._should_close = False
         self._req_param = -1
         self._count = -1
+
+    def _disconnected(self, link_uri):
+        """The link was closed or lost, drop all outstanding requests"""
+        self._cf.remove_port_callback(CRTPPort.PARAM, self._new_packet_cb)
+        self._cf.disconnected.remove_callback(self._disconnected)
+        self._done_callback = None
+        self._req_param = -1
+        self._close()
 
     def _new_packet_cb(self, pk):
         """Callback for newly arrived packets"""
